@@ -1,5 +1,7 @@
 import ObiVerif.Model.ReadErr
 import ObiVerif.Lemmas.ReadErr
+import ObiVerif.Model.Kseq
+import ObiVerif.Lemmas.Kseq
 /-!
 # C17 — truncated or corrupt compressed input is reported, never silently accepted (property theorems)
 
@@ -249,5 +251,124 @@ example : readChunks (fun _ => 0) 8 ⟨exData, .ueof⟩ = ([[62, 97, 10, 97, 99,
 
 /-- with `bufsz = 1` the inner loop reads `bufsz - 1 = 0` bytes per turn and never meets the error -/
 example : readChunks endOfLastFastaEntry 1 ⟨exData, .ueof⟩ = ([[62]], .ok) := by decide
+
+/-! ## `ReadSequencesFromFile`: opener + format guesser + chunk reader on the same stream -/
+
+/-- no read error can be turned into an accepted input, empty or not: whatever the position of the error
+(before the first byte, inside the peek of the format guesser, after it), the peek size and the buffer
+size, a stream that does not end cleanly is never accepted by `ReadSequencesFromFile` -/
+theorem readFile_error_rejected (split : Bytes → Int) (peek bufsz : Nat) (s : Stream) (hb : 2 ≤ bufsz)
+    (hs : SplitterOK split) (he : s.final ≠ Err.eof) :
+    (readFile split peek bufsz s).accepted = false := by
+  unfold readFile
+  by_cases h0 : s.data.length = 0
+  · simp [h0, he, FileOutcome.accepted]
+  · simp only [h0, if_false]
+    by_cases hp : peek ≤ s.data.length
+    · rw [guessPeek_long_ok peek s hp]
+      simp only [hp, if_true, FileOutcome.accepted]
+      rw [readChunks_error_fatal split bufsz s hb hs he]
+      rfl
+    · rw [guessPeek_error_fatal peek s (by omega) he]
+      rfl
+
+/-- a read error is never taken for an empty file -/
+theorem readFile_error_not_empty (split : Bytes → Int) (peek bufsz : Nat) (s : Stream) (he : s.final ≠ Err.eof) :
+    readFile split peek bufsz s ≠ .empty := by
+  unfold readFile
+  by_cases h0 : s.data.length = 0
+  · simp [h0, he]
+  · simp only [h0, if_false]
+    cases guessPeek peek s <;> simp
+
+/-- a non-empty stream that ends cleanly is accepted -/
+theorem readFile_clean_accepted (split : Bytes → Int) (peek bufsz : Nat) (s : Stream) (hb : 2 ≤ bufsz)
+    (hs : SplitterOK split) (he : s.final = Err.eof) (hne : s.data ≠ []) :
+    (readFile split peek bufsz s).accepted = true := by
+  unfold readFile
+  have h0 : ¬ s.data.length = 0 := by
+    intro h; exact hne (List.eq_nil_of_length_eq_zero h)
+  simp only [h0, if_false]
+  rw [guessPeek_clean_ok peek s he hne]
+  simp only [FileOutcome.accepted]
+  have : (if peek ≤ s.data.length then s else ⟨s.data, .eof⟩ : Stream) = s := by
+    split
+    · rfl
+    · cases s; simp_all
+  rw [this, readChunks_clean_ok split bufsz s hb hs he]
+  rfl
+
+example : (readFile endOfLastFastaEntry 8 8 ⟨exData, .ueof⟩).accepted = false :=
+  readFile_error_rejected _ 8 8 _ (by decide) fasta_splitter_ok (by decide)
+example : (readFile endOfLastFastaEntry 1048576 8 ⟨exData, .other⟩).accepted = false :=
+  readFile_error_rejected _ _ 8 _ (by decide) fasta_splitter_ok (by decide)
+example : readFile endOfLastFastaEntry 8 8 ⟨[], .ueof⟩ = .fail := by decide
+example : readFile endOfLastFastaEntry 8 8 ⟨[], .eof⟩ = .empty := by decide
+example : (readFile endOfLastFastaEntry 100 8 ⟨exData, .eof⟩).accepted = true :=
+  readFile_clean_accepted _ _ 8 _ (by decide) fasta_splitter_ok rfl (by decide)
+
+/-! ## the C reader of the standard input: kseq.h over zlib (`Model/Kseq.lean`)
+
+For every byte string, every buffer size, every content of the uninitialised kseq buffer (`junk`) and
+whether or not zlib has already met the damage when `gzerror` is asked before the end of the stream
+(`early`). -/
+
+open ObiVerif.Kseq in
+/-- a stream that zlib reports as truncated or corrupted is never read to a normal end … -/
+theorem kseq_stream_error_never_ok (bufsz : Nat) (fin : Fin) (early : Bool) (junk : UInt8) (d : Kseq.Bytes)
+    (hf : fin ≠ .clean) : (readAll bufsz fin early junk d).2 ≠ .ok :=
+  readLoop_never_ok fin early hf _ _
+
+open ObiVerif.Kseq in
+/-- … it ends in `log.Fatalf` (the model's loop does not get stuck: every record consumes input) -/
+theorem kseq_stream_error_fatal (bufsz : Nat) (fin : Fin) (early : Bool) (junk : UInt8) (d : Kseq.Bytes)
+    (hf : fin ≠ .clean) : ∃ code, (readAll bufsz fin early junk d).2 = .fatal code := by
+  have h1 := kseq_stream_error_never_ok bufsz fin early junk d hf
+  have h2 : (readAll bufsz fin early junk d).2 ≠ .stuck := readLoop_not_stuck fin early _ _
+  cases h : (readAll bufsz fin early junk d).2 with
+  | ok => exact absurd h h1
+  | stuck => exact absurd h h2
+  | fatal c => exact ⟨c, rfl⟩
+
+open ObiVerif.Kseq in
+/-- the same from any state of the reader (any number of records already read, any buffer content) -/
+theorem kseq_stream_error_fatal_from (fin : Fin) (early : Bool) (st : St) (acc : List Rec)
+    (hf : fin ≠ .clean) : ∃ code, (readLoop fin early st acc).2 = .fatal code := by
+  cases h : (readLoop fin early st acc).2 with
+  | ok => exact absurd h (readLoop_never_ok fin early hf st acc)
+  | stuck => exact absurd h (readLoop_not_stuck fin early st acc)
+  | fatal c => exact ⟨c, rfl⟩
+
+open ObiVerif.Kseq in
+/-- a stream that ends cleanly is never refused for a stream error: the run ends normally, or on a record
+whose quality is shorter than its sequence (-2) or that has no sequence (-4) -/
+theorem kseq_clean_outcomes (bufsz : Nat) (early : Bool) (junk : UInt8) (d : Kseq.Bytes) :
+    (readAll bufsz .clean early junk d).2 = .ok ∨ (readAll bufsz .clean early junk d).2 = .fatal (-2) ∨
+    (readAll bufsz .clean early junk d).2 = .fatal (-4) :=
+  readLoop_clean_outcomes early _ _
+
+open ObiVerif.Kseq in
+/-- on a clean stream the moment at which zlib could have seen an error is irrelevant -/
+theorem kseq_clean_early_irrelevant (bufsz : Nat) (e1 e2 : Bool) (junk : UInt8) (d : Kseq.Bytes) :
+    readAll bufsz .clean e1 junk d = readAll bufsz .clean e2 junk d :=
+  readLoop_clean_early e1 e2 _ _
+
+open ObiVerif.Kseq in
+/-- `kseq_read` answers -1 only after a short or failed `gzread`, i.e. when `gzerror` knows the final
+status of the stream: this is why `next_fast_sek` may trust `gzerror` exactly in that case -/
+theorem kseq_minus_one_at_end (st : St) (h : (kseqRead st).1 = -1) : (kseqRead st).2.2.ks.isEof = true :=
+  kseqRead_eof st h
+
+open ObiVerif.Kseq in
+/-- `next_fast_sek` answers 0 (regular end) only on a clean stream -/
+theorem kseq_next_zero_clean (fin : Fin) (early : Bool) (st : St) (h : (nextFastSek fin early st).1 = 0) :
+    fin = .clean := nextFastSek_zero_clean fin early st h
+
+open ObiVerif.Kseq in
+example : ∃ code, (readAll 4096 .trunc false 0 [62, 97, 10, 97, 99, 10, 62, 98, 10, 103]).2 = .fatal code :=
+  kseq_stream_error_fatal _ _ _ _ _ (by decide)
+open ObiVerif.Kseq in
+example : ∃ code, (readAll 4 .hard true 7 [62, 97, 10, 97, 99, 10, 62, 98, 10, 103]).2 = .fatal code :=
+  kseq_stream_error_fatal _ _ _ _ _ (by decide)
 
 end ObiVerif.Props.C17
